@@ -99,17 +99,22 @@ def run(rep, tier):
     rep.check(sw_ok, "R15.1", "damping-switch", "damping applied for au3 < 40", "the damping switch is not a threshold on au3 at 40: %s" % list(cds)[:2], f.loc())
 
     # ---------------------------------------------------------------- R15.2
-    vs = [g for g in F.funcs if g.qname.endswith("eeInteractor::VSiteA") and g.j["template"] != "instantiation"] or [g for g in F.funcs if g.qname.endswith("eeInteractor::VSiteA")]
+    vs = [g for g in F.funcs if g.qname.endswith("eeInteractor::VSiteA") and g.j["template"] == "instantiation"]
     if not vs:
-        rep.broken("R15.2", "eeInteractor::VSiteA not found")
-    else:
-        g = vs[0]
+        rep.broken("R15.2", "no instantiation of eeInteractor::VSiteA found")
+    for g in vs:
         rep.analysed(g)
-        defs = {d["name"]: nows(show(d["init"])) for d in g.decls.values() if d.get("init") is not None}
-        ok = defs.get("fac1") in ("(1/R)", "(1./R)", "(1.0/R)") and defs.get("R") == "a.norm()" and "(posB-posA)" in (defs.get("a") or "")
-        v0 = [nows(show(n)) for n in g.walk() if n.get("k") in ("assign", "opcall") and n.get("op") in ("=", "+=") and nows(show(n.get("lhs") or n["args"][0])) == "V(0)"]
-        ok = ok and any("fac1*siteB.getCharge()" in t or "siteB.getCharge()*fac1" in t for t in v0)
-        rep.check(ok, "R15.2", "monopole", "V(0) gets fac1 * q_B with fac1 = 1/|posB - posA|", "monopole term: defs %s, V(0) assignments %s" % ({k: defs.get(k) for k in ("a", "R", "fac1")}, v0[:2]), g.loc(), sample=True)
+        an, bn = [p_["name"] for p_ in g.j["params"][:2]]
+        fg = Fold(g).run()
+        outv = {d_.get("name") for d_ in g.decls.values() if nows(d_.get("type") or "") == nows(g.j["ret"]) and d_.get("name")}
+        v0 = [e for e in fg.events if e["kind"] == "store" and re.match(r"^(\w+)\(0\)$", nows(e["target"])) and nows(e["target"])[:-3] in outv]
+        first = [e for e in v0 if not e["guards"] and not e.get("not")]
+        pA_, pB_ = vec_atoms("getPos(%s)" % an), vec_atoms("getPos(%s)" % bn)
+        d_ = pB_ - pA_
+        want = Fn("getCharge")(S(bn)) / sp.sqrt(sum(x * x for x in d_))
+        ok = len(first) == 1 and v0 and v0[0] is first[0] and not isinstance(first[0]["value"], (tuple, Matrix)) and sp.simplify(first[0]["value"] - want) == 0
+        rep.check(ok, "R15.2", "monopole|%s" % (g.j.get("qname_targs") or g.qname).split("::")[-1], "V(0) starts as q_B / |posB - posA|",
+                  "%s: the charge-charge entry starts as %s (required getCharge(%s)/|getPos(%s) - getPos(%s)|)" % (g.qname, [str(e["value"])[:120] for e in v0[:1]], bn, bn, an), g.loc(), sample=True)
     rep.assumptions += ["exchange symmetry, translation/rotation invariance, the rank-1/2 tensor blocks, the Coulomb limit of charge clusters and the "
                         "field/energy derivative relation are NOT decided (they need path-sensitive evaluation of VSiteA<N> over if-constexpr/rank "
                         "branches or execution)"]
@@ -186,7 +191,7 @@ def check_size_selection(rep, F):
         if not any(n.get("k") in ("call", "mcall") and (n.get("callee") or "").endswith("eeInteractor::VSiteA") for n in f.walk()):
             continue
         seen.add((f.qname, f.j.get("sig")))
-        fo = Fold(f, record_calls=r"eeInteractor::VSiteA$", inline=False).run()
+        fo = Fold(f, record_calls=r"eeInteractor::VSiteA$").run()
         conds = getattr(fo, "conds", {})
         calls = [e for e in fo.events if e["kind"] == "call"]
         rets = [e for e in fo.events if e["kind"] == "return" and e.get("value") is not None]
